@@ -84,3 +84,34 @@ func SharedBits(a, b []byte) int {
 	}
 	return n
 }
+
+// PoolKey returns the pool-format key [2]"vk"[4]<i> (indexes >= 2^19 are outside the sorted pool).
+func PoolKey(i uint32) []byte {
+	k := make([]byte, 8)
+	k[0], k[1], k[2], k[3] = 2, 'v', 'k', 4
+	binary.BigEndian.PutUint32(k[4:], i)
+	return k
+}
+
+// Ladder returns the mined deep-path group (ladder_data.go): the target key and, for d = 0..len-1, a key whose sha256 shares
+// exactly d leading bits with the target's. A state holding all of them gives the target a path with len(ladder) branch points.
+func Ladder() (target []byte, ladder [][]byte) {
+	for _, i := range LadderIdx {
+		ladder = append(ladder, PoolKey(i))
+	}
+	return PoolKey(LadderTarget), ladder
+}
+
+// LongKey returns a length-prefixed key of exactly `total` bytes (total >= 10, <= 250): [2]"vl"[4]<i>[n]<pad>. Keys of
+// different i are never byte-prefixes of each other or of pool keys (other leading segment).
+func LongKey(i uint32, total int) []byte {
+	k := make([]byte, 0, total)
+	k = append(k, 2, 'v', 'l', 4, 0, 0, 0, 0)
+	binary.BigEndian.PutUint32(k[4:], i)
+	n := total - 9
+	k = append(k, byte(n))
+	for j := 0; j < n; j++ {
+		k = append(k, byte(i)+byte(j)*7)
+	}
+	return k
+}
